@@ -107,6 +107,7 @@ type World struct {
 	Deadlock   bool // required task unfinished, nothing enabled, no timer
 	HorizonHit bool
 	Diverged   string // replay divergence (engine error)
+	StepLimit  bool   // the execution did not end within MaxSteps scheduling steps
 	Stopped    bool   // stopped by StopAt (state already covered)
 	Panic      string // a task panicked (library panic)
 
@@ -559,7 +560,9 @@ func (w *World) run() {
 		w.Steps++
 		Tick()
 		if w.Steps > w.MaxSteps {
-			w.Diverged = "step limit exceeded (livelock in harness?)"
+			// harness programs are finite: an execution this long means that library
+			// code loops through scheduling points without making progress
+			w.StepLimit = true
 			return
 		}
 		raceDisable()
